@@ -339,10 +339,8 @@ Proof.
       constructor; rewrite ?Hsh; cbn [lcur lprog lpc lpayload s1 images payloads borrowed pc prog myid kidx cur] in *; auto.
       * intros H. exfalso. apply H. reflexivity.
       * intros _ Hb p u Hin. apply orb_false_iff in Hb. destruct Hb as [_ Hb]. unfold bw in Hb.
-        rewrite <- negb_true_iff, negb_involutive in Hb.
         assert (Hp : In p (tracker s)).
-        { destruct (existsb (fun w : Z * Z => negb (memZ (fst w) (tracker s))) lc) eqn:Ex; [discriminate|].
-          destruct (memZ p (tracker s)) eqn:Em; [apply memZ_In; exact Em|]. exfalso.
+        { destruct (memZ p (tracker s)) eqn:Em; [apply memZ_In; exact Em|]. exfalso.
           assert (existsb (fun w : Z * Z => negb (memZ (fst w) (tracker s))) lc = true); [|congruence].
           apply existsb_exists. exists (p, u). split; [exact Hin | cbn [fst]; rewrite Em; reflexivity]. }
         exists (image_of (images s) p). split; [unfold f; apply in_map_iff; exists p; auto | apply pt_applied0; exact Hin].
